@@ -309,11 +309,15 @@ def gen_cmd(rnd, d=0, forms=None, newline_ws=False) -> Cmd:
         else:
             w = [("plain", "ls", None)]
         words.append(w)
-    seps = [" ", " ", "  ", "\t", "   ", " \t "] + (["\n", " \n  "] if newline_ws else [])
+    seps = [" ", " ", "  ", "\t", "   ", " \t "] + (["\n", " \n  ", "\n=col", "\n=col"] if newline_ws else [])
     text = o + rnd.choice(["", "", " ", "  "])
     for i, w in enumerate(words):
         if i:
-            text += rnd.choice(seps)
+            sep = rnd.choice(seps)
+            if sep == "\n=col":
+                # the next word starts on a new line, in exactly the column where the previous one ended
+                sep = "\n" + " " * (len(text) - (text.rfind("\n") + 1))
+            text += sep
         text += "".join(p[1] for p in w)
     text += rnd.choice(["", "", " ", "\t"]) + c
     return Cmd((o, c, fn), words, text)
